@@ -35,7 +35,7 @@ def run(ctx: Ctx):
     from . import c06
     ctx.attempt(c06.split, ctx)
     ctx.attempt(c06.partition, ctx)
-    ctx.attempt(c06.move_bookkeeping, ctx)
+    ctx.attempt(c06.move_bookkeeping, ctx, ("position", "route"))  # odometer and energy are C06's / C04's
     # the geoid of a station/base compared in the guards is the entity's own position cell: `geoid` property
     ctx.floor("GD.LOC", 11)
     ctx.floor("GD.ARRIVE", 3)
